@@ -185,7 +185,7 @@ def gen_case(rng, tier, T_modes=("zero", "pos", "mixed", "named", "empty")):
     else:
         kind = None if form == "dict" else rng.choice([k for k in fam if k.endswith("Matrix") == (form == "matrix")])
     uni = 'int' if (kind and kind.endswith("Matrix")) else rng.choice(['int', 'pool'])
-    wide = rng.random() < 0.1
+    wide = rng.random() < 0.15
     t, labs = gen_model(rng, fn, uni, dyw if wide else dy)
     if kind in QUAD:
         t = [(k, v) for k, v in t if len(k) <= 2]
@@ -215,7 +215,7 @@ def gen_case(rng, tier, T_modes=("zero", "pos", "mixed", "named", "empty")):
     upd = []
     if kind and t and rng.random() < 0.12:
         upd = [(rng.choice(t)[0], F(0))]          # stale variables
-    elif kind and not kind.endswith("Matrix") and t and rng.random() < 0.12:
+    elif kind and not kind.endswith("Matrix") and t and rng.random() < 0.25:
         # a variable that is registered first and then disappears: it keeps the smallest integer label while later ones are in use
         used = {x for k, _ in t for x in k}
         fresh = [l for l in (C.POOL if uni == 'pool' else range(8)) if l not in used]
